@@ -102,6 +102,19 @@ func newNhAgent(eids ...string) *nhAgent {
 func (a *nhAgent) Endpoints() []bpv7.EndpointID        { return a.eids }
 func (a *nhAgent) MessageReceiver() chan agent.Message { return a.receiver }
 func (a *nhAgent) MessageSender() chan agent.Message   { return a.sender }
+// waitBundles waits until the agent has received at least n bundle messages (delivery through the mux is
+// asynchronous); it gives up after a generous watchdog and reports false.
+func (a *nhAgent) waitBundles(n int) bool {
+	deadline := time.Now().Add(20 * time.Second)
+	for len(a.bundles()) < n {
+		if time.Now().After(deadline) {
+			return false
+		}
+		time.Sleep(50 * time.Microsecond)
+	}
+	return true
+}
+
 func (a *nhAgent) bundles() [][]byte {
 	a.mu.Lock()
 	defer a.mu.Unlock()
@@ -186,7 +199,7 @@ func (n *nhNode) open() error {
 	n.cron = c.VerifTakeCron()
 	n.closed = false
 	if n.cfg.Agents {
-		n.agent = newNhAgent("dtn://node/app")
+		n.agent = newNhAgent("dtn://node/app", "dtn://monitoring/reports") // the second endpoint is local under another node name
 		c.RegisterApplicationAgent(n.agent)
 	}
 	return nil
